@@ -78,6 +78,14 @@ add("C07", "exploration",
     COMMON_NOTE + "Reference: Go map. The hash knob preserves the API and the uint32 truncation the code applies; Go map iteration order inside LoadFromMap is not owned (such cases are re-executed up to 8 times by the replay gate).",
     "small-scope exhaustive enumeration of key sets x hash assignments x load histories against a Go map, with the hash function as a controlled environment", "E6+E4", "5/C07")
 
+add("C18", "exploration",
+    "The helpers are pure functions of small arguments, so the whole product is enumerated: 6 error kinds x 15 type ids x 4 messages x 6 causes x {bare, wrapped} x 3 prefixes for PrependError and NewProtocolExceptionWithErr (dynamic type, type id, text, identity on protocol exceptions, Unwrap/Is reachability), and all ordered pairs (protocol exception, target) for errors.Is against a reference predicate.",
+    COMMON_NOTE, "exhaustive product enumeration against a reference predicate", "E6", "5/C18")
+add("C19", "model_checking",
+    "Explicit-state breadth-first search over all histories of Write/Read/Reset/Close/RemainingBytes/IsOpen/Open/Flush on the two handles (transport, buffer) of one bytes.Buffer, for both constructors, with a byte-FIFO reference compared after every transition (reads through either handle, RemainingBytes == unread length, Close empties, Reset visible through the other handle); plus the generic transport over every readable-length class and every registration/call sequence of <= 4 steps for the three callbacks (identity of arguments, result passed through, specific error and no call when unregistered).",
+    COMMON_NOTE + "States are keyed by the FIFO content, which determines all futures of a bytes.Buffer as far as the property observes it.",
+    "explicit-state BFS over operation histories of the real object against a FIFO reference model", "E2", "5/C19")
+
 NOT_YET = {}
 
 def main():
